@@ -377,6 +377,9 @@ def r6_streams_and_text_ranges(ctx):
     r5_stale_shape(ctx)
 
 
+from ..through_time import make_rule as _mk_tt
+_through_time = _mk_tt("C03")
+
 RULES = [
     ("C03-R1", r1_writer_exhaustive),
     ("C03-R2", r2_header_once),
@@ -384,4 +387,5 @@ RULES = [
     ("C03-R4", r4_terminators_and_wrapping),
     ("C03-R5", r5_mode_suffix_tables),
     ("C03-R6", r6_streams_and_text_ranges),
+    ("C03-T1", _through_time),
 ]
